@@ -124,6 +124,7 @@ class NcpEzsp:
         self.value_reject: set[int] = set()
         self.counters = [0] * 64
         self.free_buffers = 200
+        self.stack_type = 2
 
     # ------------------------------------------------------------------ wire
     @property
@@ -134,11 +135,11 @@ class NcpEzsp:
         self.negotiated = False
 
     def receive(self, data: bytes):
-        hdr = parse_header(self.layout, data)
-        if not self.negotiated and hdr is not None and hdr[1] != 0x00:
-            hdr = None                          # before negotiation only the legacy version query is understood
-        if hdr is None:
-            # every version answers the legacy 3-byte version query in legacy form
+        # an NCP understands its native layout only; in addition every version answers the legacy
+        # 3-byte `version` query in legacy form
+        hdr = parse_header(self.native, data)
+        fmt = self.native
+        if hdr is None or (self.native != "legacy3" and len(data) == 4):
             legacy = parse_header("legacy3", data)
             if legacy is not None and legacy[1] == 0x00 and len(data) == 4:
                 hdr = legacy
@@ -147,8 +148,6 @@ class NcpEzsp:
                 self.misframed.append(bytes(data))
                 self.log.append({"name": "<misframed>", "raw": bytes(data)})
                 return
-        else:
-            fmt = self.layout
         seq, fid, payload = hdr
         name = self.by_id.get(fid)
         entry = {"name": name, "id": fid, "seq": seq, "fmt": fmt, "raw": bytes(data)}
@@ -251,7 +250,7 @@ class NcpEzsp:
     def cmd_version(self, a):
         if int(a["desiredProtocolVersion"]) == self.version:
             self.negotiated = True
-        return [self.version, 2, 0x6710]
+        return [self.version, self.stack_type, 0x6710]
 
     def cmd_nop(self, a):
         return []
